@@ -129,7 +129,7 @@ impl Sub for Weekday {
 impl Add<u8> for Weekday {
     type Output = Self;
     fn add(self, rhs: u8) -> Self {
-        Self::from(u8::from(self) + rhs)
+        Self::from(u8::from(self) + rhs.rem_euclid(Self::MAX))
     }
 }
 
@@ -137,7 +137,7 @@ impl Sub<u8> for Weekday {
     type Output = Self;
     fn sub(self, rhs: u8) -> Self {
         // We can safely cast the weekdays as u8 into i8 because the maximum value is 6, and the max value of a i8 is 127.
-        Self::from(u8::from(self) as i8 - rhs as i8)
+        Self::from(u8::from(self) as i8 - rhs.rem_euclid(Self::MAX) as i8)
     }
 }
 
